@@ -2,18 +2,31 @@
 
 Specification: Deps(P, insts) of specs/DjcSemantics.tla - from the instances the reference
 semantics renders into the page (document order) and the assets of their classes: inline JS /
-CSS of every rendered class with non-blank code, once, in first-appearance order; the Media
-files of those classes incl. inherited Media (Media.extend), each once; nothing for classes
-that were not rendered.  specs/MC_Djc.tla enumerates every page up to a node bound over the
-library with assets (shared files, a subclass pair with/without extend, blank code).
+CSS of every rendered class with non-blank code, once, in first-appearance order, AS WRITTEN
+(the code is an arbitrary text: the delivered text equals it character by character); the Media
+files of those classes incl. inherited Media, each once; nothing for classes that were not rendered.
+Inherited Media (MediaFiles): the parent's files by default - also when the class writes no Media
+class or one that lists no file of its own -, nothing with Media.extend = False, and with
+Media.extend = [classes] the whole media of exactly those classes (not the parent's).
+specs/MC_Djc.tla enumerates every page up to a node bound over the library under TWO asset
+alphabets: A (shared files, a subclass pair with/without extend, blank code) and B (AssetsB: assets
+that arrive only through inheritance - empty Media on a subclass, extend = [classes] without own
+files, a never-rendered "theme" class, no Media below such a class - and code texts over an
+alphabet with backslash sequences \\n \\d \\1 \\g<0> \\\\ \\201C and a trailing backslash).
 
 spec -> code: every enumerated page through render_dependencies() in document and fragment mode
-              with placeholders / <head><body> only; the final HTML is parsed (html.parser):
-              inline <script>/<style> bodies in order, src/href lists, the decoded data-djc JSON,
-              leftover markers.
-code -> spec: random programs with random asset assignments (shared files, inheritance, dict-form
-              css, class-name alphabets ASCII / underscore-digit / non-ASCII), rendered via
-              render_dependencies(), the middleware and Component.render(); validated by TLC.
+              with placeholders / <head><body> only (alphabet A), every 2nd page again under
+              alphabet B; the final HTML is parsed (html.parser): inline <script>/<style> bodies in
+              order, src/href lists, the decoded data-djc JSON, leftover markers.
+code -> spec: random programs with random asset assignments (shared files, inheritance by subclassing
+              and by extend lists, classes whose Media lists no own file in every spelling, dict-form
+              css, code texts over the backslash alphabet, class-name alphabets ASCII /
+              underscore-digit / non-ASCII), rendered via render_dependencies(), the middleware and
+              Component.render(); validated by TLC.
+
+Not asserted: the order of Media files; in fragment mode the code is declared by URL, so the identity of
+the class is compared there, not the served text.  Code texts never contain "</script" / "</style"
+(refused by the library, C13's business) nor leading / trailing white space (the harness strips it).
 """
 from __future__ import annotations
 
@@ -203,14 +216,35 @@ def finding_key(case, m) -> Optional[str]:
     return None
 
 
+# inline code alphabet: what re / str.format / %-formatting / JSON / HTML would treat specially if the text were
+# ever used as a template instead of being copied
+CODE_PIECES = ["\\n", "\\d", "\\1", "\\g<0>", "\\g<1>", "\\\\", "\\201C", "\\t", "\\u00e9", " x ", "'", '"', "{0}", "%s", "&amp;"]
+MFORMS = ("absent", "bare", "explicit", "emptylists")
+
+
+def code_text(rnd: random.Random, tag: str) -> str:
+    if rnd.random() < 0.4:
+        return tag
+    t = (tag + "".join(rnd.choice(CODE_PIECES) for _ in range(rnd.randint(1, 3)))).strip()
+    return t + "\\" if rnd.random() < 0.12 else t       # a single trailing backslash
+
+
 def random_assets(rnd: random.Random, prog, names=("ascii", "ascii", "under")) -> None:
     pool_js = ["f1.js", "f2.js", "shared.js", "lib/x.js"]
     pool_css = ["a1.css", "a2.css", "shared.css"]
     for i, c in enumerate(prog["comps"], start=1):
         base = rnd.choice([0, 0, 0] + list(range(1, i))) if i > 1 else 0
-        a = {"js": rnd.choice(["", f"/*J{i}*/", f"/*J{i}*/", " "]), "css": rnd.choice(["", f"/*S{i}*/", " "]),
+        a = {"js": rnd.choice(["", code_text(rnd, f"/*J{i}*/"), code_text(rnd, f"/*J{i}*/"), " "]),
+             "css": rnd.choice(["", code_text(rnd, f"/*S{i}*/"), " "]),
              "mjs": rnd.sample(pool_js, rnd.randint(0, 2)), "mcss": rnd.sample(pool_css, rnd.randint(0, 2)),
              "base": base, "ext": rnd.random() < 0.75, "name": rnd.choice(names), "cssdict": rnd.random() < 0.3}
+        if i > 1 and rnd.random() < 0.25:
+            # Media.extend = [classes]: inherit from exactly these (rarely the empty list: from nothing)
+            a["extl"] = sorted(rnd.sample(range(1, i), rnd.randint(1, min(2, i - 1)))) if rnd.random() < 0.9 else []
+        if (base or a.get("extl")) and rnd.random() < 0.5:
+            a["mjs"], a["mcss"] = [], []                  # everything it has comes through inheritance
+        if not a["mjs"] and not a["mcss"]:
+            a["mform"] = rnd.choice(MFORMS)               # how a Media class without own files is spelled
         if base and a["js"] == "":
             a["js"] = " "
         if base and a["css"] == "":
@@ -263,7 +297,7 @@ def run_cases(chk: Check, cases, exp, label: str) -> Dict[str, int]:
     return st
 
 
-def body(chk: Check, *, mc_nodes: int, n_random: int, deep: int) -> None:
+def body(chk: Check, *, mc_nodes: int, n_random: int, deep: int, b_every: int = 2) -> None:
     states = trans = 0
     for mode in P.MODES:
         progs, exp, r = djc.mc_programs("slots", mode, mc_nodes)
@@ -274,6 +308,19 @@ def body(chk: Check, *, mc_nodes: int, n_random: int, deep: int) -> None:
             cases.append((p, "render_dependencies", ("document", "fragment")[i % 2], LAYOUTS[(i // 2) % len(LAYOUTS)]))
         st = run_cases(chk, cases, exp, f"mc-deps-{mode}")
         chk.add("mc_pages_replayed", len(cases))
+        # the same pages under the library's second asset alphabet (MC_Djc!AssetsB; expectation = the exported depsB)
+        lib = djc.mc_programs.lib
+        comps_b = [dict(c, assets=a) for c, a in zip(lib["comps"], lib["assetsB"])]
+        cases_b, exp_b = [], {}
+        for j, p in enumerate(progs[::b_every]):
+            cases_b.append((dict(p, comps=comps_b), "render_dependencies", "fragment" if j % 3 == 2 else "document",
+                            LAYOUTS[(j // 3) % len(LAYOUTS)]))
+            exp_b[p["id"]] = dict(exp[p["id"]], deps=exp[p["id"]]["depsB"])
+        st = run_cases(chk, cases_b, exp_b, f"mc-depsB-{mode}")
+        chk.add("mc_pages_replayed_alphabet_B", len(cases_b))
+        mid = cases_b[len(cases_b) // 2][0]
+        chk.sample({"mc_page": djc.brief(mid)["page"], "mode": mode, "alphabet": "B", "expected_deps": exp_b[mid["id"]]["deps"]},
+                   limit=4)
         mid = progs[len(progs) // 2]
         chk.sample({"mc_page": djc.brief(mid)["page"], "mode": mode, "expected_deps": exp[mid["id"]]["deps"]}, limit=2)
     rnd = random.Random(chk.seed * 1000003 + 4)
